@@ -367,6 +367,7 @@ struct Run<'a> {
     implicit_in: u128,
     deposits: u128,
     cert_seen: Vec<Vec<u8>>,
+    cert_history: Vec<(Certificate, usize, u8, usize)>,
     unlocked_markers: Vec<u64>,
     unwitnessed_locked: Vec<Vec<u8>>,
     hints_plain: bool,
@@ -747,6 +748,8 @@ impl<'a> Run<'a> {
     }
 
     fn op_cert(&mut self) {
+        // now and then the caller offers a certificate it has added before (same bytes, same credential kind)
+        let reuse: Option<(Certificate, usize, u8, usize)> = if !self.cert_history.is_empty() && self.t.chance(40) { Some(self.cert_history[self.t.choose(self.cert_history.len())].clone()) } else { None };
         let (cred, ck, ci) = self.cred();
         let kind = self.t.choose(17);
         let coin = [2_000_000u64, 0, 1, 500_000_000][self.t.choose(4)];
@@ -791,6 +794,10 @@ impl<'a> Run<'a> {
             14 => Certificate::new_stake_registration_and_delegation(&StakeRegistrationAndDelegation::new(&cred, &pool, &bn(coin))),
             15 => Certificate::new_vote_registration_and_delegation(&VoteRegistrationAndDelegation::new(&cred, &drep, &bn(coin))),
             _ => Certificate::new_stake_vote_registration_and_delegation(&StakeVoteRegistrationAndDelegation::new(&cred, &pool, &drep, &bn(coin))),
+        };
+        let (cert, kind, ck, ci) = match reuse {
+            Some(x) => x,
+            None => (cert, kind, ck, ci),
         };
         let cbytes = cert.to_bytes();
         // the same certificate again: the builder refuses it ("already exists"); should it ever take it, the set must
@@ -843,6 +850,7 @@ impl<'a> Run<'a> {
         if ok {
             if !again {
                 self.cert_seen.push(cbytes);
+                self.cert_history.push((cert.clone(), kind, ck, ci));
             }
             self.used.0 = true;
             let cb = self.cb.clone();
@@ -1187,6 +1195,7 @@ pub fn run(tape: &[u8], focus: Focus) -> Option<Outcome> {
         implicit_in: 0,
         deposits: 0,
         cert_seen: Vec::new(),
+        cert_history: Vec::new(),
         unlocked_markers: Vec::new(),
         unwitnessed_locked: Vec::new(),
         hints_plain: true,
